@@ -129,11 +129,19 @@ type Client struct {
 }
 
 func (c *Client) Ping() (*models.PingResult, error) {
+	c.r.S.Emit(Ev{"ev": "Ping"})
 	v := c.r.S.At("Ping", "", nil)
 	if err, ok := v.(error); ok && err != nil {
+		c.r.S.Emit(Ev{"ev": "PingRet", "ok": false})
 		return nil, err
 	}
+	c.r.S.Emit(Ev{"ev": "PingRet", "ok": true})
 	return &models.PingResult{MemdEndpoint: "m", MgmtEndpoint: "g"}, nil
+}
+
+// NewBareClient is a fake client on its own scheduler (health-check driver).
+func NewBareClient(s *sched.Sched) *Client {
+	return &Client{r: &Rig{S: s, W: NewWorld(1)}, Obs: map[uint16]couchbase.Observer{}}
 }
 func (c *Client) GetAgent() *gocbcore.Agent     { return nil }
 func (c *Client) GetMetaAgent() *gocbcore.Agent { return nil }
@@ -483,13 +491,18 @@ type Rig struct {
 
 var logOnce sync.Once
 
-// Boot creates a fresh library "process" over the durable world.
-func Boot(w *World, opt Options) *Rig {
+// QuietLog installs a logger that prints nothing.
+func QuietLog() {
 	logOnce.Do(func() {
 		l := logrus.New()
 		l.SetLevel(logrus.PanicLevel)
 		logger.Log = &logger.Loggers{Logrus: l}
 	})
+}
+
+// Boot creates a fresh library "process" over the durable world.
+func Boot(w *World, opt Options) *Rig {
+	QuietLog()
 	r := &Rig{W: w, S: sched.New(), Opt: opt, CollectionIDs: map[uint32]string{}}
 	cfg := &config.Dcp{}
 	cfg.ApplyDefaults()
